@@ -63,7 +63,12 @@ def at_one_exact(f):
     try:
         v = np.asarray(f(complex(1.0)), dtype=complex)
     except ZeroDivisionError:
-        return None
+        # a NumPy scalar divides to inf/nan instead of raising: code with a special branch for N=1 never divides
+        try:
+            with np.errstate(all="ignore"):
+                v = np.asarray(f(np.complex128(1.0)), dtype=complex)
+        except ZeroDivisionError:
+            return None
     if not np.all(np.isfinite(v)):
         return None
     return v
@@ -103,6 +108,20 @@ def number_rule(R, hit, keybase, case, f, orders, tols, fscale, skip=()):
             R.ck.inconclusive(f"N->1 extrapolation of {case} order {k} direction-dependent ({spread[k]:.2e})")
         if exact is not None:
             R.check(hit, f"{keybase}/order{k}/N=1", case + (("order", k), "N=1"), exact[k], sc[k], tol, dict(value=exact[k]))
+    # inside the 1e-5 neighbourhood of N=1, where implementations switch to hand-written limits; the value there is
+    # the limit plus a first-order term, bounded with a finite-difference slope taken outside the neighbourhood
+    slope = np.max([np.abs(np.asarray(f(1 + (EPS / 4) * d), dtype=complex) - lim) / (EPS / 4) for d in DIRS], axis=0)
+    for dn in (1e-6, 1e-6j, -3e-6 + 2e-6j):
+        try:
+            with np.errstate(all="ignore"):
+                v = np.asarray(f(np.complex128(1.0 + dn)), dtype=complex)
+        except ZeroDivisionError:
+            continue
+        for k in orders:
+            if k in skip or not np.isfinite(v[k]):
+                continue
+            allowed = max(tols[k], 1e-5) + 3.0 * abs(dn) * float(slope[k]) / max(float(sc[k]), 1e-300)
+            R.check(hit, f"{keybase}/order{k}/near-N=1", case + (("order", k), "near", dn), v[k], sc[k], allowed, dict(value=v[k], N=1.0 + dn, slope_estimate=float(slope[k])))
 
 
 def run(ck):
